@@ -269,6 +269,35 @@ func (w *rrWorld) opUpsert(u *url.URL, hasW bool, wt int) *rrOp {
 	})
 }
 
+// opUpsertPartlyBad updates an existing or new server with a valid weight followed by a refused one:
+// the call must fail; whether the valid option took effect before the refusal is left open by the
+// statement, so the model afterwards adopts the weight the balancer reports (old or wt, nothing else).
+func (w *rrWorld) opUpsertPartlyBad(u *url.URL, wt int) *rrOp {
+	op := &rrOp{kind: "upsert-partly-bad", key: keyOf(u), hasW: true, w: wt, u: mustURL(u.String())}
+	return w.spawn(op, func() {
+		op.err = w.admin().UpsertServer(u, roundrobin.Weight(wt), roundrobin.Weight(-1)) != nil
+	})
+}
+
+// adoptAfterPartlyBad reconciles the model after opUpsertPartlyBad (coordinator, nothing else running).
+func (w *rrWorld) adoptAfterPartlyBad(op *rrOp) {
+	if !op.err {
+		w.r.Fail("upsert-result", "UpsertServer(%s, Weight(%d), Weight(-1)) returned no error", op.key, op.w)
+	}
+	i := w.model.find(op.key)
+	got, ok := w.rr.ServerWeight(op.u)
+	if i < 0 {
+		if ok {
+			w.r.Fail("pool-mismatch", "a refused update added server %s", op.key)
+		}
+		return
+	}
+	if !ok || (got != w.model.m[i].weight && got != op.w) {
+		w.r.Fail("weight-mismatch", "after the refused update of %s (valid weight %d, then -1) the balancer reports weight %d,%v; before it was %d", op.key, op.w, got, ok, w.model.m[i].weight)
+	}
+	w.model.m[i].weight = got
+}
+
 func (w *rrWorld) opRemove(u *url.URL) *rrOp {
 	op := &rrOp{kind: "remove", key: keyOf(u), u: mustURL(u.String())}
 	return w.spawn(op, func() { op.err = w.admin().RemoveServer(u) != nil })
